@@ -48,3 +48,25 @@ Definition obs_auth b64t utf8t md5t keqvt fn kind hdr method realm users : T :=
 (* end-to-end runs: was the protected body served? *)
 Definition obs_served b64t utf8t md5t keqvt fn kind hdr method realm users : T :=
   Tbool (protected_served (outcome_of b64t utf8t md5t keqvt fn kind hdr method realm users)).
+
+(* Several checks on one and the same request object.  Each check is the pure function
+   above, decided by its own (realm, users, encrypt); the only thing that carries over
+   is request.login, which a check that raises (or finds no header) leaves untouched. *)
+Definition login_after (prev : T) (o : outcome) : T :=
+  match o with
+  | Authd u => Tl [Tn 2; Tb u]
+  | Refused true => Tl [Tn 1]
+  | Refused false => prev
+  | Crash => prev
+  end.
+
+Definition tag_of (o : outcome) : T :=
+  match o with Authd _ => Tn 0 | Refused _ => Tn 1 | Crash => Tn 2 end.
+
+Fixpoint obs_seq_from (prev : T) (os : list outcome) : list T :=
+  match os with
+  | [] => []
+  | o :: r => let l := login_after prev o in Tl [tag_of o; l] :: obs_seq_from l r
+  end.
+
+Definition obs_auth_seq (os : list outcome) : T := Tl (obs_seq_from (Tl [Tn 0]) os).
